@@ -119,7 +119,7 @@ Fixpoint fragments_with_ids (fs : list frag) (next : N) : outcome (list frag * N
 Fixpoint insert_by_id (f : frag) (l : list frag) : list frag :=
   match l with
   | [] => [f]
-  | x :: r => if fr_id x <=? fr_id f then x :: insert_by_id f r else f :: l
+  | x :: r => if fr_id x <? fr_id f then x :: insert_by_id f r else f :: l
   end.
 Definition sort_by_id (l : list frag) : list frag := fold_right insert_by_id [] l.
 
@@ -387,3 +387,43 @@ Fixpoint chk_hist_loop (st : option (tstate unit)) (steps : list step_in) (outs 
 
 Definition chk_history (steps : list step_in) (outs : list (outcome man_view)) : bool :=
   chk_hist_loop None steps outs.
+
+(* ---- executable restatement of C11_split_preserves, used for small-universe sweeps (Examples) ---- *)
+Definition nat_list_sum (l : list nat) : nat := fold_right Nat.add 0%nat l.
+
+Definition split_props_hold (legacy : bool) (max g : nat) (fire : list bool) (sizes : list N) : bool :=
+  let full := oracle_of_list fire in
+  let data := unit_items (map Some sizes) in
+  match buffered_reader legacy max (Nat.min g max) data, write_fragments_internal legacy max g full data with
+  | Ok chunks, Ok files =>
+      let lens := map (@length unit) files in
+      let nchunks := length (ovals_m chunks) in
+      Nat.eqb (nat_list_sum lens) (nat_list_sum (map N.to_nat sizes))
+      && forallb (fun x => Nat.ltb 0 x && Nat.ltb x (2 * max)) lens
+      && (Known_C11_rows_limit_byte_roll legacy full nchunks || Known_C11_rows_limit_legacy_group legacy max g
+          || forallb (fun x => Nat.leb x max) lens)
+      && (fires_within full nchunks
+          || forallb (fun x => if legacy
+                               then Nat.leb max x && Nat.ltb x (max + Nat.min g max) && Nat.eqb (x mod Nat.min g max) 0
+                               else Nat.eqb x max) (removelast lens))
+  | _, _ => false
+  end.
+
+(* all lists over [alphabet] of length <= n *)
+Fixpoint lists_upto {X} (alphabet : list X) (n : nat) : list (list X) :=
+  match n with
+  | O => [[]]
+  | S k => [] :: flat_map (fun l => map (fun a => a :: l) alphabet) (lists_upto alphabet k)
+  end.
+
+Definition sweep_split : bool :=
+  forallb (fun legacy =>
+  forallb (fun max =>
+  forallb (fun g =>
+  forallb (fun fire =>
+  forallb (fun sizes => split_props_hold legacy max g fire sizes)
+    (lists_upto [0; 1; 2; 3; 5] 3))
+    [[]; [true]; [false; true]; [true; false; true]; [false; false; true; true]])
+    [1; 2; 3; 5]%nat)
+    [1; 2; 3; 4]%nat)
+    [false; true].
